@@ -27,7 +27,7 @@ TEXTS = {
          "The whole API surface is compared panic/no-panic per call under catch_unwind with a watchdog, in the dev and "
          "release profiles, including closures that re-enter, full queues, exceeded limits and no-op/empty parent sets. "
          "Partial: absence of panics inside std/rtrb/rand, real blocking of parking_lot and calls from TLS destructors "
-         "are runtime facts exercised by the harness only.", "DESIGN.md 6/C07"),
+         "(exercised by a teardown stream in both registration orders) are runtime facts exercised by the harness only.", "DESIGN.md 6/C07"),
  "C02": ("Kernel-checked theorems: system-wide invariant over ALL histories and schedules that every reported record "
          "carries a trace id supplied with a sampled root; a root's token/record carry the supplied trace id and remote "
          "parent; issued child tokens name the issuing span as parent, one item per parent; records of a local-span set "
